@@ -123,6 +123,8 @@ func Scalars() []Named {
 		N("str-empty", ""), N("str-a", "a"), N("str-abc", "abc def"), N("str-utf8", "é中😀"), N("str-bad", "a\xffb"),
 		N("str-0", "0"), N("str-1", "1"), N("str-num", "12.5"), N("str--3", "-3"), N("str-1e3", "1e3"), N("str-sp", " 7 "), N("str-hex", "0x10"), N("str-inf", "Inf"), N("str-nan", "NaN"),
 		N("str-html", "<b>&\"'</b>"),
+		N("embeds nil Stringer/Number/Boolean", EmbedsIfaces{}), N("*embeds nil Stringer/Number/Boolean", &EmbedsIfaces{}), N("embeds Stringer, nil Number/Boolean", EmbedsIfaces{Stringer: ValStringer{"es"}}),
+		N("embeds Number, nil Stringer", EmbedsIfaces{Number: ValNumber{2}}), N("embeds nil *Stringer-impl", EmbedsStringerPtr{Tag: "t"}), N("embeds *Stringer-impl", EmbedsStringerPtr{&ValStringer{"ep"}, "t"}),
 		// letters whose other case has another length in UTF-8, alone and followed by a little
 		N("str-kelvin", "\u212a"), N("str-kelvin-x", "\u212ax"), N("str-ohm", "\u2126"), N("str-capital-sharp-s", "\u1e9e"), N("str-dotted-I", "\u0130"), N("str-dotted-I-i", "\u0130i"),
 		N("str-sharp-s", "\u00df"), N("str-ligature", "\ufb01x"), N("str-titlecase", "\u01c5a"), N("str-long-s", "\u017f"), N("str-combining", "e\u0301 x\u0301"), N("str-one-bad-byte", "\xc3"),
@@ -176,6 +178,7 @@ func Containers() []Named {
 		N("nil *[]int", nilPtrSlice), N("nil *map", nilPtrMap), N("nil *Thing", nilPtrThing),
 		N("string", "hello"), N("int", 5), N("nil", nil), N("bool", true), N("func", func() int { return 1 }), N("chan", make(chan int)),
 		N("safe-slice", stick.NewSafeValue([]int{1, 2}, "html")),
+		N("embeds nil ifaces", EmbedsIfaces{}), N("*embeds nil ifaces", &EmbedsIfaces{}), N("embeds Stringer only", EmbedsIfaces{Stringer: ValStringer{"es"}}), N("embeds nil *ValStringer", EmbedsStringerPtr{Tag: "t"}), N("embeds *ValStringer", EmbedsStringerPtr{&ValStringer{"ep"}, "t"}),
 		N("OuterVal", OuterVal{Inner{"in", 1}, 2}), N("*OuterVal", &OuterVal{Inner{"pin", 3}, 4}), N("OuterPtr", OuterPtr{&Inner{"ep", 5}, 6}), N("OuterPtr nil-embedded", OuterPtr{nil, 7}), N("*OuterPtr nil-embedded", &OuterPtr{nil, 8}),
 		N("OuterIface", func() OuterIface {
 			n := 9
@@ -197,7 +200,7 @@ func Keys() []Named {
 		N("'a'", "a"), N("'k'", "k"), N("'1'", "1"), N("'0'", "0"), N("'Name'", "Name"), N("'hidden'", "hidden"), N("'ValueMethod'", "ValueMethod"), N("'PtrMethod'", "PtrMethod"),
 		N("'Add'", "Add"), N("'Variadic'", "Variadic"), N("'Join'", "Join"), N("'Fmt'", "Fmt"), N("'Two'", "Two"), N("'Nothing'", "Nothing"), N("'NilFunc'", "NilFunc"), N("'Fn'", "Fn"), N("'TakesPtr'", "TakesPtr"), N("'TakesUint'", "TakesUint"), N("'TakesInt8'", "TakesInt8"), N("'TakesUint8'", "TakesUint8"),
 		N("'TakesIface'", "TakesIface"), N("'TakesFloat'", "TakesFloat"), N("'TakesSlice'", "TakesSlice"), N("'Concat'", "Concat"), N("'hiddenMethod'", "hiddenMethod"), N("'missing'", "missing"), N("''", ""),
-		N("'Items'", "Items"), N("'Inner'", "Inner"), N("'Any'", "Any"), N("'Attrs'", "Attrs"), N("'ID'", "ID"), N("'note'", "note"), N("'innerLower'", "innerLower"), N("'A'", "A"), N("'B'", "B"), N("'C'", "C"), N("'N'", "N"), N("'Extra'", "Extra"), N("'Hello'", "Hello"), N("'PtrHello'", "PtrHello"), N("'PP'", "PP"), N("'Next'", "Next"), N("KeyStr('a')", KeyStr("a")), N("KeyStringer('a')", KeyStringer("a")), N("OuterIface{slice}", OuterIface{Any: []int{1}}), N("KeyInt(1)", KeyInt(1)), N("'true'", "true"),
+		N("'Items'", "Items"), N("'Inner'", "Inner"), N("'Any'", "Any"), N("'Attrs'", "Attrs"), N("'ID'", "ID"), N("'note'", "note"), N("'innerLower'", "innerLower"), N("'A'", "A"), N("'B'", "B"), N("'C'", "C"), N("'N'", "N"), N("'Extra'", "Extra"), N("'Hello'", "Hello"), N("'PtrHello'", "PtrHello"), N("'String'", "String"), N("'Number'", "Number"), N("'Boolean'", "Boolean"), N("'Tag'", "Tag"), N("'PP'", "PP"), N("'Next'", "Next"), N("KeyStr('a')", KeyStr("a")), N("KeyStringer('a')", KeyStringer("a")), N("OuterIface{slice}", OuterIface{Any: []int{1}}), N("KeyInt(1)", KeyInt(1)), N("'true'", "true"),
 		// strings that strconv.ParseFloat accepts but that are no usable index
 		N("'NaN'", "NaN"), N("'nan'", "nan"), N("'Inf'", "Inf"), N("'-Inf'", "-Inf"), N("'+Infinity'", "+Infinity"), N("'1e400'", "1e400"), N("'0x1'", "0x1"), N("'0x1p-2'", "0x1p-2"),
 		N("'1e0'", "1e0"), N("'1.0'", "1.0"), N("' 1'", " 1"), N("'-0'", "-0"), N("'1_0'", "1_0"),
@@ -280,6 +283,20 @@ type Inner struct {
 
 func (i Inner) Hello() string     { return "hello " + i.Name }
 func (i *Inner) PtrHello() string { return "ptr-hello " + i.Name }
+
+// EmbedsIfaces implements Stringer, Number and Boolean through embedded interfaces, any of which may be nil: the
+// promoted methods exist, calling one whose interface is nil dereferences nil.
+type EmbedsIfaces struct {
+	stick.Stringer
+	stick.Number
+	stick.Boolean
+}
+
+// EmbedsStringerPtr gets String() from an embedded pointer.
+type EmbedsStringerPtr struct {
+	*ValStringer
+	Tag string
+}
 
 type OuterVal struct {
 	Inner
